@@ -146,11 +146,14 @@ def rl_cell(cell):
             vs.append(("rl-bootstrap-not-appended", f"bootstrap index {obs['halton_id']}, expected the appended Halton at {len(supplied)}"))
         if any((not isinstance(s, tuple)) and not (0 <= s < obs["n_samplers"]) for s in obs["samplers"]):
             vs.append(("rl-sampler-outside-set", f"samplers used {obs['samplers']}"))
-        # stronger than the injection: executed agent-chosen batches equal the agent's choices in order (none skipped)
+        # every executed agent-chosen batch corresponds to its own, later choice of the agent: the executed samplers are a subsequence
+        # of the agent's choices in order. (A choice that was never executed - proposed just before a session ended or before a batch
+        # failed - may be dropped or kept for the next session: the property does not say; whether a split run equals the unsplit one is C05.)
         pols = [e[1] for e in obs["log"] if e[0] == "policy"]
         ran = [s for s in obs["samplers"] if not isinstance(s, tuple)][1:]
-        if not vs and ran != pols[:len(ran)]:
-            vs.append(("rl-choice-skipped", f"batches ran {ran} but the agent chose {pols}"))
+        it = iter(pols)
+        if not vs and not all(any(p_ == s for p_ in it) for s in ran):
+            vs.append(("rl-choice-skipped", f"batches ran {ran}: not the agent's choices {pols} taken in order (one choice served two batches, or a batch ran a sampler the agent had not chosen for it)"))
         outs.add(tuple(map(repr, obs["samplers"])))
         for key, what in vs:
             if sum(1 for x in res["violations"] if x["key"] == key) < 1:
